@@ -160,7 +160,8 @@ Qed.
 
 Lemma make_patch_ok c u p : make_patch c u = Some p -> patch_ok p.
 Proof.
-  destruct u as [r|g i|rs|ops|g|gid|b|bs ov|gid]; cbn [make_patch]; intros H.
+  induction u as [r|g i|rs|ops|g|gid|b|bs ov|gid|um u' IHu]; cbn [make_patch]; intros H;
+    [| | | | | | | | |destruct (existsb _ (added_rules u')); [discriminate|apply IHu; exact H]].
   - destruct (adjust_rule r None) as [r'|] eqn:E; [|discriminate]. inversion H; subst.
     apply p_set_rule_ok; [eapply adjust_rule_valid; exact E|apply empty_patch_ok].
   - inversion H; subst. apply p_delete_rule_ok, empty_patch_ok.
@@ -1168,3 +1169,8 @@ Proof.
   intros Hff st m El. pose proof (fault_free_history_ok mr ups Hff) as H. fold st in H.
   unfold st_hist_ok in H. rewrite El in H. apply hist_ok_reload; exact H.
 Qed.
+
+(* the store set only ever makes RuleManager refuse a client's rule: an update that is accepted under some store
+   set builds the patch it would build without the check; loading (`initialize`) has no store set at all *)
+Theorem store_check_only_refuses c um u p : make_patch c (UWithStores um u) = Some p -> make_patch c u = Some p.
+Proof. cbn [make_patch]. destruct (existsb _ (added_rules u)); [discriminate|exact (fun H => H)]. Qed.
